@@ -10,7 +10,9 @@ from pyvc.models import _norm, fits
 from pyvc.sym import SBytes, zint
 from specs import scalars
 
-SPELL = {"little": "little", "<": "little", "big": "big", ">": "big", "!": "big", "network": "big"}
+import sys
+
+SPELL = {"little": "little", "<": "little", "big": "big", ">": "big", "!": "big", "network": "big", "@": sys.byteorder, "=": sys.byteorder}
 
 
 class UtilCase(Case):
@@ -93,6 +95,61 @@ class UtilCase(Case):
         ctx.cover("done")
 
 
+def _util_standin(self):
+    """Bounded native check of pack/unpack/swap and the fixed-width helpers against a by-hand two's complement (run only
+    when the symbolic case was left undecided): boundary values and 200 seeded values per signedness."""
+    import random
+    import zlib
+
+    from dissect.cstruct import utils
+
+    rnd = random.Random(zlib.crc32(self.name.encode()))
+    bits = self.bits
+    nb = (bits + 7) // 8
+    order = SPELL[self.spelling]
+    fails = []
+    evals = 0
+
+    def ref_bytes(x):
+        le = bytes(((x >> (8 * i)) & 0xFF) for i in range(nb))
+        return le if order == "little" else le[::-1]
+
+    vals_u = [0, 1, 2, 127, 128, 255, (1 << bits) - 1, (1 << (bits - 1)), (1 << (bits - 1)) - 1] + [rnd.randrange(1 << bits) for _ in range(200)]
+    vals_u = [v for v in vals_u if 0 <= v < (1 << bits)]
+    vals_s = [-1, -2, -(1 << (bits - 1)), -(1 << (bits - 1)) + 1] + [-rnd.randrange(1, (1 << (bits - 1)) + 1) for _ in range(100)] if bits >= 8 and bits % 8 == 0 else []
+    hp = {8: utils.p8, 16: utils.p16, 32: utils.p32, 64: utils.p64}.get(bits)
+    hu = {8: utils.u8, 16: utils.u16, 32: utils.u32, 64: utils.u64}.get(bits)
+    for x in vals_u + vals_s:
+        evals += 1
+        bad = None
+        try:
+            want = ref_bytes(x)
+            if self.which in ("pack", "pack-odd", "unpack"):
+                got = utils.pack(x, bits, self.spelling)
+                if got != want:
+                    bad = f"pack({x}, {bits}, {self.spelling!r}) = {got.hex()}, two's complement is {want.hex()}"
+                elif hp and bits % 8 == 0 and hp(x, self.spelling) != want:
+                    bad = f"p{bits}({x}, {self.spelling!r}) = {hp(x, self.spelling).hex()}, expected {want.hex()}"
+                elif bits % 8 == 0:
+                    back = utils.unpack(want, bits, self.spelling, x < 0)
+                    if back != x:
+                        bad = f"unpack({want.hex()}, {bits}, {self.spelling!r}, {x < 0}) = {back}, expected {x}"
+                    elif hu and hu(want, self.spelling, x < 0) != x:
+                        bad = f"u{bits}({want.hex()}) = {hu(want, self.spelling, x < 0)}, expected {x}"
+            elif self.which == "swap" and x >= 0:
+                y = utils.swap(x, bits)
+                if y != int.from_bytes(x.to_bytes(nb, "little"), "big") or utils.swap(y, bits) != x:
+                    bad = f"swap({x:#x}, {bits}) = {y:#x}"
+        except Exception as e:  # noqa: BLE001
+            bad = f"raises {type(e).__name__}: {e} for value {x}"
+        if bad and len(fails) < 3:
+            fails.append({"id": f"x={x}", "inputs": {"value": x, "bits": bits, "endian": self.spelling}, "observed": bad})
+    return {"name": f"standin:{self.name}", "bound": _util_standin.__doc__.split(":", 1)[1].strip(), "evaluations": evals, "distinct": evals, "failures": fails}
+
+
+UtilCase.standin = _util_standin
+
+
 def make_util(which, bits, spelling):
     return UtilCase(which, bits, spelling)
 
@@ -100,7 +157,7 @@ def make_util(which, bits, spelling):
 def specs(tier="quick"):
     out = []
     for bits in ((8, 16, 24, 32) if tier == "quick" else (8, 16, 24, 32, 64)):
-        for sp in ("little", "big", "<", ">", "!", "network"):
+        for sp in ("little", "big", "<", ">", "!", "network", "@", "="):
             out.append(("contracts.utilsfns", "make_util", ("pack", bits, sp)))
             out.append(("contracts.utilsfns", "make_util", ("unpack", bits, sp)))
         out.append(("contracts.utilsfns", "make_util", ("swap", bits, "little")))
